@@ -1,7 +1,8 @@
 import NasdaqModel.Props.C13
 /-
-C13 — machine-checked counterexample to "the decoded message compares equal to the original" on the code as it is
-(known finding C13-group-eq-order, fixes/C13-group-eq-order.md).  `witnessDef` / `witnessMsg` are defined in
+C13 — machine-checked counterexample to "the decoded message compares equal to the original" under the order-sensitive
+group equality the code had before /repo 02aab28 (finding C13-group-eq-order, fixes/C13-group-eq-order.md, now `fixed`), and
+the same history under the equality the code has now — a regression that the harness replays on the implementation every run.  `witnessDef` / `witnessMsg` are defined in
 Model/Fix.lean; the driver prints the same terms (`fix.witness`) and the harness replays them on the implementation.
 -/
 namespace NasdaqModel.Witness.C13
@@ -23,7 +24,7 @@ theorem C13_witness_wf : wfDef witnessDef = true ∧ wfMsg witnessDef witnessMsg
     **not** `==` the original (`Message.__eq__` → `OrderedDict.__eq__`, order sensitive) -/
 theorem C13_witness_eq_order : roundTripEq pyEq [witnessDef] witnessDef witnessMsg = some false := by decide +kernel
 
-/-- with group instances compared as plain dicts (the proposed repair) the same round trip compares equal -/
+/-- with group instances compared as plain dicts (the code as it is now) the same round trip compares equal -/
 theorem C13_witness_eq_repaired : roundTripEq pyEqDict [witnessDef] witnessDef witnessMsg = some true := by decide +kernel
 
 end NasdaqModel.Witness.C13
